@@ -202,8 +202,14 @@ func ReaderFromDelta(base plumbing.EncodedObject, deltaRC io.Reader) (io.ReadClo
 					basePos += uint(n)
 					discard -= uint(n)
 				}
-				if _, err := ioutil.CopyBufferPool(dstWr, io.LimitReader(baseBuf, int64(sz))); err != nil {
+				n, err := ioutil.CopyBufferPool(dstWr, io.LimitReader(baseBuf, int64(sz)))
+				if err != nil {
 					_ = dstWr.CloseWithError(err)
+					return
+				}
+				if uint(n) != sz {
+					// The base ended before the copy was complete.
+					_ = dstWr.CloseWithError(ErrInvalidDelta)
 					return
 				}
 				remainingTargetSz -= sz
@@ -215,8 +221,14 @@ func ReaderFromDelta(base plumbing.EncodedObject, deltaRC io.Reader) (io.ReadClo
 					_ = dstWr.CloseWithError(ErrInvalidDelta)
 					return
 				}
-				if _, err := ioutil.CopyBufferPool(dstWr, io.LimitReader(deltaBuf, int64(sz))); err != nil {
+				n, err := ioutil.CopyBufferPool(dstWr, io.LimitReader(deltaBuf, int64(sz)))
+				if err != nil {
 					_ = dstWr.CloseWithError(err)
+					return
+				}
+				if uint(n) != sz {
+					// The delta ended inside the literal data of an insert.
+					_ = dstWr.CloseWithError(ErrInvalidDelta)
 					return
 				}
 
@@ -406,8 +418,12 @@ func patchDeltaWriter(dst io.Writer, base io.ReaderAt, deltaBuf *bufio.Reader,
 				return 0, plumbing.ZeroHash, err
 			}
 			baselr.N = int64(sz)
-			if _, err := io.CopyBuffer(mw, baselr, buf); err != nil {
+			n, err := io.CopyBuffer(mw, baselr, buf)
+			if err != nil {
 				return 0, plumbing.ZeroHash, err
+			}
+			if uint(n) != sz {
+				return 0, plumbing.ZeroHash, ErrInvalidDelta
 			}
 			remainingTargetSz -= sz
 		case isCopyFromDelta(cmd):
@@ -416,8 +432,13 @@ func patchDeltaWriter(dst io.Writer, base io.ReaderAt, deltaBuf *bufio.Reader,
 				return 0, plumbing.ZeroHash, ErrInvalidDelta
 			}
 			deltalr.N = int64(sz)
-			if _, err := io.CopyBuffer(mw, deltalr, buf); err != nil {
+			n, err := io.CopyBuffer(mw, deltalr, buf)
+			if err != nil {
 				return 0, plumbing.ZeroHash, err
+			}
+			if uint(n) != sz {
+				// The delta ended inside the literal data of an insert.
+				return 0, plumbing.ZeroHash, ErrInvalidDelta
 			}
 
 			remainingTargetSz -= sz
@@ -450,6 +471,10 @@ func decodeOffsetByteReader(cmd byte, delta io.ByteReader) (uint, error) {
 	for _, o := range offsets {
 		if (cmd & o.mask) != 0 {
 			next, err := delta.ReadByte()
+			if err == io.EOF {
+				// The delta ended inside the arguments of a copy command.
+				return 0, ErrInvalidDelta
+			}
 			if err != nil {
 				return 0, err
 			}
@@ -480,6 +505,9 @@ func decodeSizeByteReader(cmd byte, delta io.ByteReader) (uint, error) {
 	for _, s := range sizes {
 		if (cmd & s.mask) != 0 {
 			next, err := delta.ReadByte()
+			if err == io.EOF {
+				return 0, ErrInvalidDelta
+			}
 			if err != nil {
 				return 0, err
 			}
